@@ -10,6 +10,8 @@ import Rscp.Tie.JsonOut
 #print axioms Rscp.Props.C13.nan_fails
 #print axioms Rscp.Props.C13.year_10000_fails
 #print axioms Rscp.Props.C13.negative_year_fails_in_json
+#print axioms Rscp.Props.C13.scalars_reported_exactly
+#print axioms Rscp.Props.C13.negative_year_rewritten_in_map_formats
 #print axioms Rscp.Tie.JsonOut.shape_e3dc_NewJSONMergedMessages
 #print axioms Rscp.Tie.JsonOut.shape_e3dc_NewJSONSimpleMessage
 #print axioms Rscp.Tie.JsonOut.shape_e3dc_NewJSONSimpleMessages
